@@ -36,7 +36,9 @@ type compileCase struct {
 	I     int        `json:"i"`
 	Scn   string     `json:"scn"`
 	Kind  string     `json:"kind"`
-	Pre   []cRule    `json:"pre"`
+	Pre   []cRule    `json:"pre"` // the installed set the text is submitted against
+	PreFull   []cRule  `json:"preFull,omitempty"`   // when set: what is built first …
+	PreRemove []string `json:"preRemove,omitempty"` // … and then removed, leaving Pre
 	Text  string     `json:"text"`
 	Front struct {
 		Blank    bool     `json:"blank"`
@@ -73,6 +75,15 @@ func genRules(r *rng, n int, ver int64) []cRule {
 func genCompileCase(r *rng, i int) *compileCase {
 	c := &compileCase{I: i, Scn: "compile"}
 	c.Pre = genRules(r, 1+r.intn(3), 0)
+	if r.chance(1, 3) {
+		// the installed set is what a removal left behind: the container has been rebuilt once
+		c.PreFull = genRules(r, 3+r.intn(3), 0)
+		nrm := 1 + r.intn(2)
+		for _, ru := range c.PreFull[:nrm] {
+			c.PreRemove = append(c.PreRemove, ru.Name)
+		}
+		c.Pre = append([]cRule{}, c.PreFull[nrm:]...)
+	}
 	rules := genRules(r, 1+r.intn(3), 1)
 	var sb strings.Builder
 	for _, ru := range rules {
@@ -253,15 +264,33 @@ func runCompileCase(c *compileCase) {
 		dc := context.NewDataContext()
 		dc.Add("rec", h.rec)
 		rb := builder.NewRuleBuilder(dc)
-		if e := rb.BuildRuleFromString(preText(c.Pre)); e != nil {
+		pre := c.Pre
+		if c.PreFull != nil {
+			pre = c.PreFull
+		}
+		if e := rb.BuildRuleFromString(preText(pre)); e != nil {
 			panic("pre-state does not build: " + e.Error())
+		}
+		if c.PreFull != nil {
+			if e := rb.RemoveRules(c.PreRemove); e != nil {
+				panic("pre-state removal failed: " + e.Error())
+			}
 		}
 		return rb
 	}
 	newPool := func() *engine.GenginePool {
-		p, e := engine.NewGenginePool(1, 2, engine.SortModel, preText(c.Pre), apis)
+		pre := c.Pre
+		if c.PreFull != nil {
+			pre = c.PreFull
+		}
+		p, e := engine.NewGenginePool(1, 2, engine.SortModel, preText(pre), apis)
 		if e != nil {
 			panic("pre-state pool does not build: " + e.Error())
+		}
+		if c.PreFull != nil {
+			if e := p.RemoveRules(c.PreRemove); e != nil {
+				panic("pre-state removal failed: " + e.Error())
+			}
 		}
 		return p
 	}
